@@ -42,7 +42,7 @@ var reps = map[string][]string{
 	"0": {"0"}, "d": {"1", "9", "5"}, "x": {"a", "f", "c"}, "l": {"g", "z", "q"}, "U": {"A", "Z", "F"},
 	"SP": {" "}, "TAB": {"\t"}, "CR": {"\r"}, "NL": {"\n"}, "u2": {"é", "ß", "İ"}, "u3": {"€", "K", "中"},
 	"FW.": {"．", "。", "｡"}, "BAD": {"\xff", "\xc0", "\xfe"}, "TRUNC": {"\xc3", "\xe2\x82", "\xf0\x9f"},
-	"CTL": {"\x01", "\x7f", "\x1b"}, "NUL": {"\x00"}, "!": {"!", "*", "~"}, "QUOTE": {"\"", "'", "`"}, "BSL": {"\\"},
+	"CTL": {"\x01", "\x7f", "\x1b"}, "NUL": {"\x00"}, "!": {"!", "*", "~"}, "QUOTE": {"\""}, "SQ": {"'", "`"}, "BSL": {"\\"},
 	"RUN15": {rep("a", 15)}, "RUN16": {rep("b", 16)}, "RUN62": {rep("c", 62)}, "RUN63": {rep("a", 63), rep("1", 63), rep("-", 63)},
 	"RUN64": {rep("a", 64), rep("0", 64)}, "RUN189": {rep("a", 63) + "." + rep("b", 63) + "." + rep("c", 61)},
 	"RUN254": {rep("a", 254), rep("a.", 127), rep("1.", 127)},
@@ -67,6 +67,14 @@ func tok(t string, variant int) string {
 		return r[variant%len(r)]
 	}
 	return t
+}
+
+// pick selects the representative index: variant 0 is canonical.
+func pick(variant, i int) int {
+	if variant == 0 {
+		return 0
+	}
+	return variant + i
 }
 
 type vec struct {
@@ -115,7 +123,7 @@ func concretise(v *vec, variant int) string {
 	case "arpa", "arparun":
 		var parts []string
 		for i, t := range v.Toks {
-			parts = append(parts, tok(t, variant+i))
+			parts = append(parts, tok(t, pick(variant, i)))
 		}
 		if v.Run != "" {
 			parts = append(parts, runText(v.Run, variant))
@@ -131,7 +139,7 @@ func concretise(v *vec, variant int) string {
 	default:
 		var b strings.Builder
 		for i, t := range v.Toks {
-			b.WriteString(tok(t, variant+i))
+			b.WriteString(tok(t, pick(variant, i)))
 		}
 		return b.String()
 	}
@@ -481,7 +489,13 @@ func feedCmd(args []string) error {
 				return err
 			}
 			for k := 0; k < nvar; k++ {
-				s := concretise(&v, seed+k)
+				// Variant 0 is canonical (first representative of every class,
+				// independent of the seed); the others are seeded.
+				vr := 0
+				if k > 0 {
+					vr = seed + k
+				}
+				s := concretise(&v, vr)
 				if !dd.Add([]byte(s)) {
 					continue
 				}
